@@ -15,7 +15,7 @@ import z3
 
 from pv import harness as H
 from pv.common import ItemResult, Violation
-from pv.engine import sym
+from pv.engine import explore, sym
 from pv.engine.explore import Explorer, HarnessError, Query
 
 BOUNDS = {"quick": {"pairs_dims": "0-3", "triples_dims": "0-3", "bilinearity_dim": 2, "bit_kernels": "4-bit symbolic bitmaps",
@@ -163,6 +163,20 @@ def _concrete_space(dim, vals):
     return Space(dim, m)
 
 
+def _confirm(dim, vals, mk, name, what):
+    """replay an identity with the model's plain rational numbers against the real code; a counterexample that does
+    not reproduce is a harness error"""
+    space = _concrete_space(dim, vals)
+    gc = [vals[f"g{i}"] for i in range(dim)]
+    checks = mk(space, gc)
+    if name not in checks:
+        raise HarnessError(f"{what}: identity {name} not reached on replay with {vals}")
+    X, Y = checks[name]
+    keys = set(X.data) | set(Y.data)
+    if all(X.data.get(k_, 0) == Y.data.get(k_, 0) for k_ in keys):
+        raise HarnessError(f"{what}: counterexample for {name} did not reproduce with {vals}")
+
+
 def _replay_pair(dim, S, T, name, vals, twin=False):
     from pymbolic.geometric_algebra import MultiVector
     space = _concrete_space(dim, vals)
@@ -241,10 +255,9 @@ def check_unary(dim, tier):
         return z3.And(*[sym.eq_term(X.data.get(k_, 0), Y.data.get(k_, 0), "real") for k_ in keys]) if keys else z3.BoolVal(True)
 
     for S, T in itertools.product(blades, blades):
-        def harness(S=S, T=T):
-            space, g = make_space(dim, "real")
-            A = MultiVector({bits_of(S): a}, space)
-            B = MultiVector({bits_of(T): b}, space)
+        def mk_checks(space, g, a_, b_, S=S, T=T):
+            A = MultiVector({bits_of(S): a_}, space)
+            B = MultiVector({bits_of(T): b_}, space)
             one = MultiVector({0: 1}, space)
             checks = {
                 "rev(AB)=rev(B)rev(A)": ((A * B).rev(), B.rev() * A.rev()),
@@ -255,7 +268,7 @@ def check_unary(dim, tier):
                 gprod = 1
                 for i in S:
                     gprod = gprod * g[i]
-                checks["norm_squared"] = (MultiVector({0: A.norm_squared()}, space), MultiVector({0: a * a * gprod}, space))
+                checks["norm_squared"] = (MultiVector({0: A.norm_squared()}, space), MultiVector({0: a_ * a_ * gprod}, space))
                 checks["dual=A*rev(I)"] = (A.dual(), A * A.I.rev())
                 try:
                     inv = A.inv()
@@ -263,7 +276,11 @@ def check_unary(dim, tier):
                     checks["A*inv(A)=1"] = (A * inv, one)
                 except ZeroDivisionError:
                     checks["null blade"] = (one, one)
-            return g, checks
+            return checks
+
+        def harness(mk_checks=mk_checks):
+            space, g = make_space(dim, "real")
+            return g, mk_checks(space, g, a, b)
         ex = Explorer(pre=pre, max_paths=256, timeout_ms=10000)
         for path in ex.run(harness):
             if path.exc is not None:
@@ -279,11 +296,55 @@ def check_unary(dim, tier):
                     res.status = "inconclusive"
                     continue
                 vals = _model_vals(model, g, {"a": a, "b": b})
+                _confirm(dim, vals, lambda sp, gc: mk_checks(sp, gc, vals["a"], vals["b"]), name, f"unary dim={dim} e{S} e{T}")
                 _viol(res, f"unary dim={dim} e{S} e{T} {name}", f"ga-unary-{name.split('=')[0]}",
                       f"dim {dim}, {vals}: identity {name} fails for A = a e{S}, B = b e{T}: "
                       f"{ {k_: str(v) for k_, v in X.data.items()} } vs { {k_: str(v) for k_, v in Y.data.items()} }")
                 return H.finish(res, stats + [ex.stats], q)
         stats.append(ex.stats)
+    # inverse of non-basis blades: two-component vectors and pseudovectors (every such multivector is a blade);
+    # where the library returns an inverse at all (it may decline with NotImplementedError) it must be one
+    for grade in sorted({1, dim - 1}):
+        if grade < 1 or dim < 2:
+            continue
+        comps = [S for S in blades if len(S) == grade]
+        for S, T in itertools.combinations(comps, 2):
+            def mk_inv(space, g, a_, b_, S=S, T=T):
+                Bv = MultiVector({bits_of(S): a_, bits_of(T): b_}, space)
+                one = MultiVector({0: 1}, space)
+                try:
+                    inv = Bv.inv()
+                except (NotImplementedError, ZeroDivisionError):
+                    return {}
+                return {"inv(B)*B=1": (inv * Bv, one), "B*inv(B)=1": (Bv * inv, one)}
+
+            def harness2(mk_inv=mk_inv):
+                space, g = make_space(dim, "real")
+                return g, mk_inv(space, g, a, b)
+            ex = Explorer(pre=pre, max_paths=256, timeout_ms=10000, rlimit=20000000)
+            for path in ex.run(harness2):
+                if path.exc is not None:
+                    if isinstance(path.exc, (explore.Inconclusive,)):
+                        res.status = "inconclusive" if res.status == "ok" else res.status
+                        continue
+                    _viol(res, f"inverse dim={dim} e{S}+e{T} raises", "ga-raises", f"a e{S} + b e{T}: raised {path.exc!r}")
+                    break
+                g, checks = path.result
+                for name, (X, Y) in checks.items():
+                    res.path_assertions += 1
+                    verdict, model = q.valid(path.pc, eq_mv(X, Y))
+                    if verdict == "unsat":
+                        continue
+                    if verdict == "unknown":
+                        res.status = "inconclusive" if res.status == "ok" else res.status
+                        continue
+                    vals = _model_vals(model, g, {"a": a, "b": b})
+                    _confirm(dim, vals, lambda sp, gc: mk_inv(sp, gc, vals["a"], vals["b"]), name, f"inverse dim={dim} e{S}+e{T}")
+                    _viol(res, f"inverse dim={dim} e{S}+e{T} {name}", "ga-unary-inv",
+                          f"dim {dim}, {vals}: {name} fails for the blade B = a e{S} + b e{T}: "
+                          f"{ {k_: str(v) for k_, v in X.data.items()} }")
+                    return H.finish(res, stats + [ex.stats], q)
+            stats.append(ex.stats)
     return H.finish(res, stats, q)
 
 
